@@ -2,6 +2,7 @@ package main
 
 import (
 	"fmt"
+	"os"
 	"go/ast"
 	"go/constant"
 	"go/token"
@@ -83,6 +84,12 @@ func (e *Enc) evalSpec(x ast.Expr, env *SpecEnv) Val {
 	case *ast.Ident:
 		return e.specIdent(n.Name, env)
 	case *ast.UnaryExpr:
+		if n.Op == token.NOT {
+			e.pol = -e.pol
+			v := e.evalSpec(n.X, env)
+			e.pol = -e.pol
+			return boolVal(not(v.T))
+		}
 		v := e.evalSpec(n.X, env)
 		switch n.Op {
 		case token.NOT:
@@ -296,6 +303,9 @@ func (e *Enc) fieldOf(x Val, name string, env *SpecEnv) Val {
 func (e *Enc) specIndex(n *ast.IndexExpr, env *SpecEnv) Val {
 	x := e.evalSpec(n.X, env)
 	i := e.evalSpec(n.Index, env)
+	if e.inQuant == 0 && e.instDepth == 0 && i.Sh.K == KInt && !strings.Contains(i.T, "!q") && x.Sh.K == KSlice {
+		e.instantiateFactsFor([]string{i.T}, elemPath(x.Sh.T.Underlying().(*types.Slice).Elem()))
+	}
 	switch {
 	case x.Loc != nil && x.Loc.Sh.K == KArray:
 		p := x.Loc.Path
@@ -305,7 +315,21 @@ func (e *Enc) specIndex(n *ast.IndexExpr, env *SpecEnv) Val {
 		return e.loadOrLoc(env, &Loc{Base: x.Loc.Base, Path: p, Idx: i.T, Sh: x.Loc.Sh.Elem})
 	case x.Sh.K == KSlice:
 		el := x.Sh.T.Underlying().(*types.Slice).Elem()
-		return e.loadOrLoc(env, &Loc{Base: x.Sub[0].T, Path: elemPath(el), Idx: fmt.Sprintf("(+ %s %s)", x.Sub[1].T, i.T), Sh: shapeOf(el)})
+		loc := &Loc{Base: x.Sub[0].T, Path: elemPath(el), Idx: fmt.Sprintf("(+ %s %s)", x.Sub[1].T, i.T), Sh: shapeOf(el)}
+		if len(e.quantPats) > 0 && !hasArray(loc.Sh) {
+			// trigger for the enclosing quantifier: the first leaf of the element read
+			for k := range e.quantPats {
+				if strings.Contains(i.T, e.quantPats[k].bv) && !strings.Contains(x.Sub[0].T, e.quantPats[k].bv) {
+					ls := leavesOf(loc.Sh)
+					if len(ls) > 0 {
+						h := e.heap(env.st, loc.Path+ls[0].Path, ls[0].K)
+						e.quantPats[k].pats = append(e.quantPats[k].pats, fmt.Sprintf("(select (select %s %s) %s)", h.Term, loc.Base, loc.Idx))
+						e.quantPats[k].names = append(e.quantPats[k].names, loc.Path)
+					}
+				}
+			}
+		}
+		return e.loadOrLoc(env, loc)
 	case x.Sh.K == KStr:
 		return intVal(fmt.Sprintf("(sat %s %s)", x.T, i.T))
 	case x.Sh.K == KInt:
@@ -337,7 +361,10 @@ func (e *Enc) specBinary(n *ast.BinaryExpr, env *SpecEnv) Val {
 	case token.LOR:
 		return boolVal(or(e.evalBool(n.X, env), e.evalBool(n.Y, env)))
 	}
+	sp := e.pol
+	e.pol = 0
 	x, y := e.evalSpec(n.X, env), e.evalSpec(n.Y, env)
+	e.pol = sp
 	switch n.Op {
 	case token.EQL, token.NEQ:
 		var t string
@@ -433,11 +460,20 @@ func (e *Enc) specCall(n *ast.CallExpr, env *SpecEnv) Val {
 	arg := func(i int) Val { return e.evalSpec(n.Args[i], env) }
 	switch fname {
 	case "implies__":
-		return boolVal(implies(e.evalBool(n.Args[0], env), e.evalBool(n.Args[1], env)))
+		e.pol = -e.pol
+		a := e.evalBool(n.Args[0], env)
+		e.pol = -e.pol
+		return boolVal(implies(a, e.evalBool(n.Args[1], env)))
 	case "iff":
+		sp := e.pol
+		e.pol = 0
+		defer func() { e.pol = sp }()
 		return boolVal(fmt.Sprintf("(= %s %s)", e.evalBool(n.Args[0], env), e.evalBool(n.Args[1], env)))
 	case "ite":
+		sp := e.pol
+		e.pol = 0
 		c := e.evalBool(n.Args[0], env)
+		e.pol = sp
 		return e.iteVal(c, arg(1), arg(2))
 	case "len":
 		v := arg(0)
@@ -480,14 +516,16 @@ func (e *Enc) specCall(n *ast.CallExpr, env *SpecEnv) Val {
 		ne.old, ne.oldVars = nil, nil
 		return e.evalSpec(n.Args[0], &ne)
 	case "fresh":
+		// fresh(x): allocated during the call (not before it, and already allocated now)
 		v := arg(0)
+		nx := env.st.next
 		switch v.Sh.K {
 		case KInt:
-			return boolVal(fmt.Sprintf("(>= %s %s)", v.T, e.nextEntry))
+			return boolVal(fmt.Sprintf("(and (>= %s %s) (< %s %s))", v.T, e.nextEntry, v.T, nx))
 		case KSlice:
-			return boolVal(fmt.Sprintf("(or (= %s 0) (>= %s %s))", v.Sub[0].T, v.Sub[0].T, e.nextEntry))
+			return boolVal(fmt.Sprintf("(or (= %s 0) (and (>= %s %s) (< %s %s)))", v.Sub[0].T, v.Sub[0].T, e.nextEntry, v.Sub[0].T, nx))
 		case KIface:
-			return boolVal(fmt.Sprintf("(>= %s %s)", v.Sub[1].T, e.nextEntry))
+			return boolVal(fmt.Sprintf("(and (>= %s %s) (< %s %s))", v.Sub[1].T, e.nextEntry, v.Sub[1].T, nx))
 		}
 		specFail("fresh of %s", v.Sh.T)
 	case "ovf":
@@ -507,12 +545,65 @@ func (e *Enc) specCall(n *ast.CallExpr, env *SpecEnv) Val {
 	case "forall", "exists":
 		// forall(i, lo, hi, body): lo <= i < hi
 		id := n.Args[0].(*ast.Ident).Name
+		sp := e.pol
+		e.pol = 0
 		lo, hi := arg(1), arg(2)
+		e.pol = sp
+		if e.inQuant == 0 && ((fname == "forall" && e.pol > 0) || (fname == "exists" && e.pol < 0)) {
+			// goal position: Skolemize (assumption position of an exists: a witness)
+			k := e.fresh(id+"!sk", "Int")
+			if e.pol > 0 {
+				e.goalSkolems = append(e.goalSkolems, k)
+			}
+			body := e.evalBool(n.Args[3], env.with(id, intVal(k)))
+			rng := fmt.Sprintf("(and (<= %s %s) (< %s %s))", lo.T, k, k, hi.T)
+			if fname == "forall" {
+				return boolVal(implies(rng, body))
+			}
+			return boolVal(and(rng, body))
+		}
+		if e.inQuant == 0 && fname == "forall" && e.pol != 0 {
+			// constant small range: expand
+			var l0, h0 int
+			if _, err := fmt.Sscanf(lo.T, "%d", &l0); err == nil && fmt.Sprint(l0) == lo.T {
+				if _, err := fmt.Sscanf(hi.T, "%d", &h0); err == nil && fmt.Sprint(h0) == hi.T && h0-l0 <= 8 {
+					var cs []string
+					for k := l0; k < h0; k++ {
+						cs = append(cs, e.evalBool(n.Args[3], env.with(id, intVal(fmt.Sprint(k)))))
+					}
+					return boolVal(and(cs...))
+				}
+			}
+		}
+		if e.inQuant == 0 && fname == "forall" && e.pol < 0 {
+			// universal hypothesis: remember it for explicit instantiation at the Skolem constants of later goals
+			if e.registerQuantFact(n, id, env) && !keepQuantifiers {
+				return boolVal("true") // used only through its explicit instances
+			}
+			if !keepQuantifiers && (e.instDepth > 0 || e.invDepth > 1) {
+				return boolVal("true") // nested hypothesis met while instantiating: not used (incompleteness only)
+			}
+		}
 		e.ctr["q"]++
 		bv := fmt.Sprintf("%s!q%d", id, e.ctr["q"])
 		e.inQuant++
+		e.quantPats = append(e.quantPats, quantPat{bv: bv})
 		body := e.evalBool(n.Args[3], env.with(id, intVal(bv)))
+		qp := e.quantPats[len(e.quantPats)-1]
+		e.quantPats = e.quantPats[:len(e.quantPats)-1]
 		e.inQuant--
+		if fname == "forall" && len(qp.pats) > 0 {
+			var ps []string
+			seen := map[string]bool{}
+			for _, pt := range qp.pats {
+				if !seen[pt] && len(ps) < 4 {
+					seen[pt] = true
+					ps = append(ps, ":pattern ("+pt+")")
+				}
+			}
+			rng0 := fmt.Sprintf("(and (<= %s %s) (< %s %s))", lo.T, bv, bv, hi.T)
+			return boolVal(fmt.Sprintf("(forall ((%s Int)) (! (=> %s %s) %s))", bv, rng0, body, strings.Join(ps, " ")))
+		}
 		rng := fmt.Sprintf("(and (<= %s %s) (< %s %s))", lo.T, bv, bv, hi.T)
 		if fname == "forall" {
 			return boolVal(fmt.Sprintf("(forall ((%s Int)) (=> %s %s))", bv, rng, body))
@@ -764,7 +855,96 @@ func leavesOfSafe(sh *Shape) []leafInfo {
 
 // inlinePure symbolically executes a loop-free function and returns its
 // (merged) result. Obligations inside spec functions are suppressed.
+// specDefine tries to turn a heap-free spec function into one SMT define-fun
+// (parameters: the argument leaves) instead of inlining its body at every use.
+func (e *Enc) specDefine(fn *ssa.Function) string {
+	if name, ok := e.specFuncs[fn]; ok {
+		return name
+	}
+	e.specFuncs[fn] = "" // not eligible unless proven otherwise (also guards recursion)
+	if !strings.HasPrefix(fn.Name(), "spec_") || fn.Signature.Results().Len() != 1 {
+		return ""
+	}
+	resSh := shapeOf(fn.Signature.Results().At(0).Type())
+	if !resSh.IsLeafKind() {
+		return ""
+	}
+	var formals []Val
+	var decl []string
+	k := 0
+	for _, p := range fn.Params {
+		sh := shapeOf(p.Type())
+		if hasArray(sh) || sh.K == KSlice || sh.K == KStruct {
+			return ""
+		}
+		ls := leavesOf(sh)
+		ts := make([]string, len(ls))
+		for i, l := range ls {
+			k++
+			ts[i] = fmt.Sprintf("fp%d!q", k)
+			decl = append(decl, fmt.Sprintf("(%s %s)", ts[i], l.K.Sort()))
+		}
+		formals = append(formals, build(sh, &ts))
+	}
+	n0 := len(e.lines)
+	ok := true
+	var body Val
+	func() {
+		defer func() {
+			if r := recover(); r != nil {
+				ok = false
+			}
+		}()
+		e.inQuant++
+		e.noObl++
+		defer func() { e.inQuant--; e.noObl-- }()
+		saveReach, saveState := e.curReach, e.curState
+		defer func() { e.curReach, e.curState = saveReach, saveState }()
+		f := e.newFrame(fn, false)
+		st := &State{heaps: map[string]*Heap{}, ghosts: map[string]Val{}, dirty: map[string]*dirtyRec{}, next: "0"}
+		e.run(f, formals, st, "true")
+		if len(f.rets) == 0 || len(st.heaps) > 0 {
+			ok = false
+			return
+		}
+		for _, r := range f.rets {
+			if len(r.st.heaps) > 0 {
+				ok = false
+				return
+			}
+		}
+		body = f.rets[len(f.rets)-1].vals[0]
+		for i := len(f.rets) - 2; i >= 0; i-- {
+			body = e.iteVal(f.rets[i].reach, f.rets[i].vals[0], body)
+		}
+	}()
+	// anything emitted besides string-literal declarations makes the function ineligible
+	for _, l := range e.lines[n0:] {
+		if !strings.HasPrefix(l, "(declare-const strlit!") && !strings.HasPrefix(l, "(assert (= (slen strlit!") && !strings.HasPrefix(l, "(assert (= (sat strlit!") && !strings.HasPrefix(l, "(assert (not (= strlit!") {
+			ok = false
+		}
+	}
+	if !ok || !body.IsLeaf() {
+		return ""
+	}
+	name := "sf_" + sanitize(fn.Name())
+	e.emit(fmt.Sprintf("(define-fun %s (%s) %s %s)", name, strings.Join(decl, " "), resSh.K.Sort(), body.T))
+	e.specFuncs[fn] = name
+	return name
+}
+
 func (e *Enc) inlinePure(fn *ssa.Function, args []Val, st *State) Val {
+	if name := e.specDefine(fn); name != "" {
+		var ts []string
+		for _, a := range args {
+			ts = append(ts, flatten(a)...)
+		}
+		resSh := shapeOf(fn.Signature.Results().At(0).Type())
+		if len(ts) == 0 {
+			return Val{Sh: resSh, T: name}
+		}
+		return Val{Sh: resSh, T: "(" + name + " " + strings.Join(ts, " ") + ")"}
+	}
 	if e.depth > 12 {
 		specFail("inline depth exceeded at %s", fn.Name())
 	}
@@ -798,4 +978,127 @@ func (e *Enc) inlinePure(fn *ssa.Function, args []Val, st *State) Val {
 		out = e.iteVal(f.rets[i].reach, mk(f.rets[i]), out)
 	}
 	return e.nameVal(out, "r_"+sanitize(fn.Name()))
+}
+
+// quantFact: a universally quantified hypothesis kept as a closure so that it
+// can be instantiated explicitly (no reliance on solver triggers).
+type quantFact struct {
+	id    int
+	reach string
+	inst  func(t string) string
+	elems map[string]bool // element heaps indexed by the bound variable (nil: unknown, instantiate everywhere)
+}
+
+var keepQuantifiers = os.Getenv("GOVC_KEEPQUANT") != ""
+
+func (e *Enc) registerQuantFact(n *ast.CallExpr, id string, env *SpecEnv) bool {
+	if e.instDepth > 0 || e.invDepth > 1 {
+		return false // hypotheses met while instantiating another one stay purely quantified
+	}
+	cenv := *env
+	cenv.st = env.st.clone()
+	if env.old != nil {
+		cenv.old = env.old.clone()
+	}
+	ne := e.nextEntry
+	e.ctr["qf"]++
+	qf := &quantFact{id: e.ctr["qf"], reach: e.curReach}
+	qf.inst = func(t string) string {
+		saveNE, savePol := e.nextEntry, e.pol
+		e.nextEntry, e.pol = ne, -1
+		defer func() { e.nextEntry, e.pol = saveNE, savePol }()
+		lo := e.evalSpec(n.Args[1], &cenv)
+		hi := e.evalSpec(n.Args[2], &cenv)
+		rng := fmt.Sprintf("(and (<= %s %s) (< %s %s))", lo.T, t, t, hi.T)
+		saveR := e.curReach
+		e.curReach = and(qf.reach, rng)
+		body := e.evalBool(n.Args[3], cenv.with(id, intVal(t)))
+		e.curReach = saveR
+		return implies(rng, body)
+	}
+	// dry run: which element heaps does the body read at the bound index?
+	func() {
+		defer func() { recover() }()
+		e.inQuant++
+		e.quantPats = append(e.quantPats, quantPat{bv: "dry!q"})
+		e.evalBool(n.Args[3], cenv.with(id, intVal("dry!q")))
+		qp := e.quantPats[len(e.quantPats)-1]
+		e.quantPats = e.quantPats[:len(e.quantPats)-1]
+		e.inQuant--
+		qf.elems = map[string]bool{}
+		for _, nm := range qp.names {
+			qf.elems[nm] = true
+		}
+	}()
+	e.quantFacts = append(e.quantFacts, qf)
+	// instantiate at the index terms seen so far
+	e.instDepth++
+	for _, it := range e.indexTerms {
+		if qf.relevant(it.elem) {
+			e.instOne(qf, it.term)
+		}
+	}
+	e.instDepth--
+	return true
+}
+
+func (qf *quantFact) relevant(elem string) bool {
+	return elem == "" || qf.elems == nil || len(qf.elems) == 0 || qf.elems[elem]
+}
+
+type indexTerm struct{ term, elem string }
+
+// instantiateFacts adds the ground instances of all remembered universal
+// hypotheses at the given terms.
+func (e *Enc) instantiateFacts(terms []string) { e.instantiateFactsFor(terms, "") }
+
+// instantiateFactsFor: elem names the element heap the terms index (empty: any).
+func (e *Enc) instantiateFactsFor(terms []string, elem string) {
+	if len(terms) == 0 {
+		return
+	}
+	facts := e.quantFacts
+	e.instDepth++
+	defer func() { e.instDepth-- }()
+	for _, qf := range facts {
+		if !qf.relevant(elem) {
+			continue
+		}
+		for _, t := range terms {
+			e.instOne(qf, t)
+		}
+	}
+	for _, t := range terms {
+		known := false
+		for _, x := range e.indexTerms {
+			if x.term == t && x.elem == elem {
+				known = true
+			}
+		}
+		if !known {
+			e.indexTerms = append(e.indexTerms, indexTerm{t, elem})
+		}
+	}
+}
+
+func (e *Enc) instOne(qf *quantFact, t string) {
+	key := fmt.Sprintf("qf:%d@%s", qf.id, t)
+	if e.lemmaDone[key] {
+		return
+	}
+	e.lemmaDone[key] = true
+	e.ctr["qfinst"]++
+	defer func() {
+		if r := recover(); r != nil {
+			if _, ok := r.(specErr); ok {
+				return // the hypothesis mentions names that do not resolve here: skip this instance
+			}
+			panic(r)
+		}
+	}()
+	saveR := e.curReach
+	inst := qf.inst(t)
+	e.curReach = qf.reach
+	e.assume(inst)
+	e.curReach = saveR
 }
